@@ -700,6 +700,32 @@ func (v *Verifier) havocLoc(st *State, l modLoc, in ssa.Instruction) {
 		if v.col != nil {
 			st.colW = append(st.colW, wrec{key: "GLOBAL:" + l.kind, addr: l.base})
 		}
+	case "anyinternal":
+		v.frameCheckRegion(st, l, in)
+		h := st.heap[l.key]
+		if h == nil {
+			h = v.heapFor(st, l.sort)
+		}
+		oldArr := h.arrayTerm()
+		nb := v.Y.fresh(v.D, "hint", h.arraySort())
+		p := mk("Ptr", "zz_qp")
+		sel := mk(h.ElSort, "select", nb, p)
+		st.assume(mk("Bool", "forall ((zz_qp Ptr))", withPattern(tImp(tNot(v.internalField(p, "")), tEq(sel, mk(h.ElSort, "select", oldArr, p))), sel)))
+		key := l.key
+		h.regionHavoc(nb, func(a *Term) int {
+			f := v.internalField(a, "")
+			if f.Op == "true" {
+				return 1
+			}
+			if f.Op == "false" {
+				return 0
+			}
+			_ = key
+			return -1
+		})
+		if v.col != nil {
+			st.colW = append(st.colW, wrec{key: "ALLKEY:" + l.key})
+		}
 	case "anyelems":
 		v.frameCheckRegion(st, l, in)
 		h := st.heap[l.key]
@@ -829,7 +855,7 @@ func (v *Verifier) frameCheckRegion(st *State, l modLoc, in ssa.Instruction) {
 			continue
 		}
 		switch l.kind {
-		case "anyelems":
+		case "anyelems", "anyinternal":
 			if m.key == l.key {
 				return
 			}
@@ -902,6 +928,14 @@ func (v *Verifier) frameCheckLoc(st *State, key string, addr *Term, in ssa.Instr
 				alts = append(alts, tNot(v.internalField(addr, key)))
 				v.D.declFun("zz_userptr", []string{"Ptr"}, "Bool")
 				alts = append(alts, mk("Bool", "zz_userptr", addr))
+			}
+		case "anyinternal":
+			if m.key == key {
+				f := v.internalField(addr, "")
+				if f.Op == "true" {
+					return
+				}
+				alts = append(alts, f)
 			}
 		case "anyelems":
 			if m.key == key {
